@@ -82,7 +82,7 @@ func c08EvalCuts(t *fw.T, c *fw.Case) {
 	ss := r.Uint64()
 	st.R = xrand.New(ss)
 	plan := &cutPlan{seed: r.Uint64(), density: r.Range(2, 5), maxDepth: t.Pick(3, 6)}
-	cut := gen.RenderWith(m, gen.RenderOpts{Style: st, Paste: plan.hook})
+	cut := gen.RenderWith(m, gen.RenderOpts{Style: st, Paste: plan.hook, RepeatIncludeNames: c.Index%2 == 0})
 	stCopy.R = xrand.New(ss)
 	whole := gen.RenderWith(m, gen.RenderOpts{Style: &stCopy})
 	if len(cut.Files) == 0 {
@@ -269,7 +269,7 @@ func c08EvalName(t *fw.T, c *fw.Case) {
 
 // ---- targets ----
 
-var c08TargetKinds = []string{"absent", "directory", "empty", "enotdir", "eloop", "dangling-symlink", "self", "cycle2", "cycle3", "jsight-in-include", "symlink-outside", "deep-ok", "same-file-twice"}
+var c08TargetKinds = []string{"same-name-other-dir", "same-name-other-dir-missing", "case-differs", "absent", "directory", "empty", "enotdir", "eloop", "dangling-symlink", "self", "cycle2", "cycle3", "jsight-in-include", "symlink-outside", "deep-ok", "same-file-twice"}
 
 func c08GenTarget(r *xrand.Rand, idx int, tier string) *fw.Case {
 	kind := c08TargetKinds[idx%len(c08TargetKinds)]
@@ -335,6 +335,21 @@ func c08GenTarget(r *xrand.Rand, idx int, tier string) *fw.Case {
 		files["d1/d2/b.jst"] = []byte("TYPE @d2b any\nINCLUDE d3/c.jst\n")
 		files["d1/d2/d3/c.jst"] = []byte("TYPE @d3c any\n")
 		root += "INCLUDE d1/a.jst\n"
+	case "same-name-other-dir":
+		// the same written name in two including files of different directories names two different files
+		files["resp.jst"] = []byte("TYPE @fromTop any\n")
+		files["sub/resp.jst"] = []byte("TYPE @fromSub any\n")
+		files["sub/more.jst"] = []byte("INCLUDE resp.jst\n")
+		root += "INCLUDE resp.jst\nINCLUDE sub/more.jst\n"
+	case "same-name-other-dir-missing":
+		files["resp.jst"] = []byte("TYPE @fromTop any\n")
+		files["sub/more.jst"] = []byte("INCLUDE resp.jst\n")
+		root += "INCLUDE resp.jst\nINCLUDE sub/more.jst\n"
+	case "case-differs":
+		files["types.jst"] = []byte("TYPE @lower any\nINCLUDE Types.jst\n")
+		files["Types.jst"] = []byte("TYPE @upper any\nINCLUDE more.jst\n")
+		files["more.jst"] = []byte("TYPE @more any\n")
+		root += "INCLUDE types.jst\n"
 	case "same-file-twice":
 		files["resp.jst"] = []byte("  200 any\n")
 		root += "GET /one\n  INCLUDE resp.jst\nGET /two\n  INCLUDE resp.jst\n"
@@ -375,8 +390,12 @@ func c08EvalTarget(t *fw.T, c *fw.Case) {
 		t.Violation("outside-file-included:"+kind, fmt.Sprintf("include target %s: a file outside the project directory was opened and its declarations are in the catalog: %s", kind, fw.Short(o.JSON, 300)))
 		return
 	}
-	mustReject := map[string]bool{"absent": true, "directory": true, "enotdir": true, "eloop": true, "dangling-symlink": true, "self": true, "cycle2": true, "cycle3": true, "jsight-in-include": true}
-	mustAccept := map[string]bool{"deep-ok": true, "same-file-twice": true}
+	if kind == "same-name-other-dir" && o.Outcome == run.Accepted && !(bytes.Contains(o.JSON, []byte("@fromTop")) && bytes.Contains(o.JSON, []byte("@fromSub"))) {
+		t.Violation("include-resolved-against-wrong-directory", fmt.Sprintf("INCLUDE resp.jst written in sub/more.jst must name sub/resp.jst: %s", fw.Short(o.JSON, 300)))
+		return
+	}
+	mustReject := map[string]bool{"same-name-other-dir-missing": true, "absent": true, "directory": true, "enotdir": true, "eloop": true, "dangling-symlink": true, "self": true, "cycle2": true, "cycle3": true, "jsight-in-include": true}
+	mustAccept := map[string]bool{"same-name-other-dir": true, "case-differs": true, "deep-ok": true, "same-file-twice": true}
 	switch {
 	case mustReject[kind] && o.Outcome != run.Rejected:
 		t.Violation("target-not-rejected:"+kind, fmt.Sprintf("include target %s must be rejected with a diagnostic, got %s; root %s", kind, describe(o), fw.Short(d.Files[d.Root], 300)))
